@@ -43,7 +43,7 @@ func init() {
 		MinEvals:        floor(4000, 150000),
 		MinDistinct:     floor(500, 15000),
 		RequiredCells: func(string) []string {
-			cells := []string{"purity/seal-unseal/history", "purity/seal-unseal/concurrent", "dlg", "inv", "minimal", "full", "time/beyond-2^53", "time/2^53-1", "null/top-level-meta", "null/top-level-arg", "float/integral", "dec/generic", "dec/typed", "dec/reader", "codec/dagcbor", "codec/dagjson", "stream-of-tokens/dagcbor", "stream-of-tokens/dagjson"}
+			cells := []string{"purity/seal-unseal/history", "purity/seal-unseal/concurrent", "dlg", "inv", "minimal", "full", "time/beyond-2^53", "time/2^53-1", "null/top-level-meta", "null/top-level-arg", "float/integral", "float/integral-policy-bounds", "dec/generic", "dec/typed", "dec/reader", "codec/dagcbor", "codec/dagjson", "stream-of-tokens/dagcbor", "stream-of-tokens/dagjson"}
 			for _, a := range gen.Algs {
 				cells = append(cells, "alg/"+a)
 			}
@@ -465,6 +465,14 @@ func runC07(w *mon.W) {
 		// integral-valued floats
 		s := gen.RandomSpec(r, typ, gen.SpecOpts{Val: gen.ValOpts{IntegralF: true}})
 		s.Meta = ref.Map(ref.E("f", ref.Float(float64(2+i))), ref.E("g", ref.Float(0.5)))
+		if typ == "dlg" {
+			// ... also as bounds of ordering statements and as == literals of the policy, nested too
+			amt := ref.Sel{{Kind: ref.SField, Name: "amount"}}
+			s.Pol = ref.Policy{{Kind: ">", Sel: amt, Val: ref.Float(float64(5 + i))}, {Kind: "<=", Sel: amt, Val: ref.Float(-3)},
+				{Kind: "not", Subs: []ref.Stmt{{Kind: "or", Subs: []ref.Stmt{{Kind: ">=", Sel: amt, Val: ref.Float(1e6)}, {Kind: "==", Sel: amt, Val: ref.Float(0)}}}}},
+				{Kind: "any", Sel: ref.Sel{{Kind: ref.SField, Name: "xs"}}, Subs: []ref.Stmt{{Kind: "<", Sel: ref.Sel{}, Val: ref.Float(100)}}}}
+			w.Cover("float/integral-policy-bounds")
+		}
 		c07One(w, s, "random")
 		// top-level null
 		s = gen.RandomSpec(r, typ, gen.SpecOpts{})
